@@ -292,8 +292,20 @@ func (ef *Filter) Process(ctx context.Context, e *eventlogger.Event) (*eventlogg
 			}
 		}
 	case pKind == reflect.Struct:
+		byValue := !payloadValue.CanSet()
+		if byValue {
+			// a struct passed by value cannot be modified via reflection (its
+			// tagged fields would be forwarded unfiltered): filter a settable
+			// copy of it and forward that
+			settable := reflect.New(pType).Elem()
+			settable.Set(payloadValue)
+			payloadValue = settable
+		}
 		if err := ef.filterField(ctx, payloadValue, filterOverrides, tm, opts...); err != nil {
 			return nil, fmt.Errorf("%s: %w", op, err)
+		}
+		if byValue {
+			e.Payload = payloadValue.Interface()
 		}
 	case pKind == reflect.Map:
 		// an untagged map payload: track it, so its values are filtered as
